@@ -54,7 +54,7 @@ fn formatting(rep: &mut Report) {
             let r = api("Debug/Display formatting into a stack buffer", || write!(buf, $($arg)*).is_ok());
             rep.evaluations += 1;
             if r != Some(true) || buf.len == 0 || buf.overflow {
-                rep.violation(
+                crate::viol!(rep, 
                     format!("C18:formatting:{}", $what),
                     format!("formatting {} failed or produced nothing (overflow: {})", $what, buf.overflow),
                     json!({"kind":"formatting","what":$what}),
@@ -98,21 +98,21 @@ fn formatting(rep: &mut Report) {
     if let Some(Some(e)) = e1 {
         fmt!("TryFromGreaterError Display", "{} / {:?}", e, e);
     } else {
-        rep.violation("C18:error-path:TryFromGreaterError", "U7::try_from(200u8) did not fail".to_string(), json!({"kind":"error-path"}));
+        crate::viol!(rep, "C18:error-path:TryFromGreaterError", "U7::try_from(200u8) did not fail".to_string(), json!({"kind":"error-path"}));
     }
     for s in ["", "abc", "128", "-1", "99999999999999999999999"] {
         let e = api("str::parse::<restricted integer>", || s.parse::<U7>().err());
         if let Some(Some(e)) = e {
             fmt!("ParseIntError Display", "{} / {:?}", e, e);
         } else {
-            rep.violation("C18:error-path:ParseIntError", format!("{:?}.parse::<U7>() did not fail", s), json!({"kind":"error-path"}));
+            crate::viol!(rep, "C18:error-path:ParseIntError", format!("{:?}.parse::<U7>() did not fail", s), json!({"kind":"error-path"}));
         }
     }
     let e = api("ShortMessageFactory::from_bytes", || RawShortMessage::from_bytes((5, u7(0), u7(0))).err());
     if let Some(Some(e)) = e {
         fmt!("FromBytesError Display", "{} / {:?}", e, e);
     } else {
-        rep.violation("C18:error-path:FromBytesError", "from_bytes((5,..)) did not fail".to_string(), json!({"kind":"error-path"}));
+        crate::viol!(rep, "C18:error-path:FromBytesError", "from_bytes((5,..)) did not fail".to_string(), json!({"kind":"error-path"}));
     }
     // the documented panics fire (probed; they are the only sanctioned ones)
     let probes: [(&str, Box<dyn Fn() + std::panic::RefUnwindSafe>); 4] = [
@@ -125,7 +125,7 @@ fn formatting(rep: &mut Report) {
         let r = api_probe("documented panic probes", || f());
         rep.evaluations += 1;
         if r.is_ok() {
-            rep.violation(
+            crate::viol!(rep, 
                 format!("C18:documented-panic-missing:{}", name),
                 format!("{} did not panic although the documentation says it does", name),
                 json!({"kind":"documented-panic","call":name}),
@@ -154,6 +154,17 @@ pub fn run(cfg: &Cfg, rep: &mut Report) {
             rep.states += r.states;
             rep.transitions += r.transitions;
         }
+    }
+    if cfg.thorough && cfg.release {
+        // the full (N)RPN constructor x channel x number x value x byte-order product, every
+        // (constructor, channel, number) row being one allocation/panic-monitored region
+        let mut full = cfg.clone();
+        full.prop = "C09".to_string();
+        let mut r = Report::new();
+        super::pn::run_c09(&full, &mut r);
+        rep.evaluations += r.evaluations;
+        rep.count("full_pn_encoding_product_evaluations_under_allocation_monitor", r.evaluations);
+        ran.push("C09 (full product)");
     }
     rep.notes.insert("sub_workloads_run".into(), json!(ran));
     formatting(rep);
